@@ -36,7 +36,10 @@ def sid_strings(ctx):
             "S-1-5-١٨", "S-1-5-１８", "S-1-٥-18", "S-١-5-18", "S-1-5-+18", "S-1-5--18", "S-1-5-18-", "-S-1-5-18", "S--1-5-18", "s-1-5-18",
             "S-1-5", "S-1", "S", "", "S-1-5-", "S-1-5-0x12", "S-1-5-1_0", "S-1-5-1 0", "S-1-5-00000000000018", "S-1-0005-18", "S-01-5-18",
             "S-1-5-18\x00", "S-1-5-18\n\n", "X-1-5-18", "SS-1-5-18", "S-1-5-18-S", "S-1-5-²", "S-1-5-৩", "S-1-5-18 ", "S-1-5-1.0", "S-1-5-1e3",
-            "S-1-5-" + "9" * 40, "S-1-" + "9" * 30 + "-1", "S-1-5-4294967296", "S-1-281474976710656-1", "S-1-281474976710655-4294967295"]
+            "S-1-5-" + "9" * 40, "S-1-" + "9" * 30 + "-1", "S-1-5-4294967296", "S-1-281474976710656-1", "S-1-281474976710655-4294967295",
+            # the longest well-formed SID strings: 15 ten-digit sub-authorities, maximal authority, leading zeros
+            "S-1-5" + "-4294967295" * 15, "S-9-281474976710655" + "-4294967295" * 15, "S-1-281474976710655" + "-4294967294" * 14 + "-1",
+            "S-1-5" + "-0000000000000000000000001" * 15, "S-1-000000000000000000005-18"]
     return out
 
 
